@@ -565,23 +565,41 @@ def _noabort_rule(chk, prog):
                     return True
             q = q.parent
         return False
-    fwd = set(entries)
-    work = list(entries)
-    while work:
-        x = work.pop()
-        skip = set()
-        if internal_only:
+    # janet_signalv / janet_call end a pending async operation when the signal they coerce to an error is an await
+    # (`== JANET_SIGNAL_EVENT`).  asm and unmarshal raise errors, never awaits, so what hangs off those branches (the
+    # event callbacks, through fiber->ev_callback) is not reachable from them.  The premise is checked below: janet_await
+    # must not be reachable from the two entry points; if it is, the branches are followed after all.
+    def event_gated(site):
+        q = site.parent
+        while q is not None:
+            if q.k == "if" and any(y.k == "ref" and y.name == "JANET_SIGNAL_EVENT" for y in q.kids[0].walk()) and \
+                    any(y.k == "bin" and y.op == "==" for y in q.kids[0].walk()) and any(y is site for y in q.kids[1].walk()):
+                return True
+            q = q.parent
+        return False
+
+    def closure(skip_event):
+        fwd = set(entries)
+        work = list(entries)
+        while work:
+            x = work.pop()
             per = {}
             for (n_, tgt, kind) in cg.sites.get(x, ()):
                 for t in tgt:
-                    per.setdefault(t, []).append(gated(n_))
+                    per.setdefault(t, []).append((internal_only and gated(n_)) or (skip_event and event_gated(n_)))
             skip = set(t for t, gs in per.items() if gs and all(gs))
-        for y in cg.edges.get(x, ()):
-            if y in skip:
-                continue
-            if y not in fwd and isinstance(y, tuple):
-                fwd.add(y)
-                work.append(y)
+            for y in cg.edges.get(x, ()):
+                if y in skip:
+                    continue
+                if y not in fwd and isinstance(y, tuple):
+                    fwd.add(y)
+                    work.append(y)
+        return fwd
+    fwd = closure(True)
+    aw = cg.find("janet_await")
+    if aw is not None and aw in fwd:
+        chk.note("%s: janet_await is reachable from asm / unmarshal, so the await-only branches of janet_signalv are followed" % rule)
+        fwd = closure(False)
     n = 0
     for fid in sorted(fwd):
         fn = cg.funcs.get(fid)
